@@ -316,7 +316,7 @@ func c03geom(r *h.Rand, kind int) orb.Geometry {
 var c03keys = []string{"name", "Name", "NAME", "kind", "n", "N", "x", "class", "Class", "population", "ünï", "ÜNÏ", "a", "A", "", "tag:with:colon"}
 
 func c03value(r *h.Rand) interface{} {
-	n := []int64{0, 1, 7, -1, 255, 256, 1 << 31, -(1 << 31), 1<<53 + 1, 42}[r.Intn(10)]
+	n := []int64{0, 1, 7, -1, 255, 256, 1 << 31, -(1 << 31), 1<<53 + 1, 42, math.MinInt64, math.MaxInt64, -7}[r.Intn(13)]
 	switch r.Intn(20) {
 	case 0:
 		return []string{"", "a", "road", "7", "true", "null", "ünï", "x\x00y"}[r.Intn(8)]
@@ -341,7 +341,7 @@ func c03value(r *h.Rand) interface{} {
 	case 10:
 		return uint32(n)
 	case 11:
-		return []uint64{0, 1, 7, 1 << 63, 1<<64 - 1, 1<<53 + 1}[r.Intn(6)]
+		return []uint64{0, 1, 7, 1 << 63, 1<<64 - 1, 1<<53 + 1, 1<<64 - 7}[r.Intn(7)]
 	case 12:
 		return float32(n) / 4
 	case 13:
